@@ -68,19 +68,45 @@ class Lock:
 # ----------------------------------------------------------------------------
 # build
 # ----------------------------------------------------------------------------
+def _strip_comments_strings(txt):
+    """linear scan: drop (nested) comments and blank out string literals"""
+    out = []
+    i, n, depth = 0, len(txt), 0
+    while i < n:
+        c = txt[i]
+        if depth == 0 and c == '"':
+            j = i + 1
+            while j < n:
+                if txt[j] == '"':
+                    if j + 1 < n and txt[j + 1] == '"':
+                        j += 2
+                        continue
+                    break
+                j += 1
+            out.append('""')
+            i = j + 1
+        elif c == '(' and i + 1 < n and txt[i + 1] == '*':
+            depth += 1
+            i += 2
+        elif depth > 0 and c == '*' and i + 1 < n and txt[i + 1] == ')':
+            depth -= 1
+            i += 2
+            out.append(' ')
+        elif depth > 0:
+            i += 1
+        else:
+            out.append(c)
+            i += 1
+    return ''.join(out)
+
+
 def forbidden_scan():
     """Admitted / Axiom / ... anywhere in the development? returns list of hits."""
     hits = []
     for p in sorted(COQ.rglob('*.v')):
         if '.cases' in p.parts:
             continue
-        txt = p.read_text()
-        # strip comments (non-nested is enough for our sources; nested handled by loop)
-        prev = None
-        while prev != txt:
-            prev = txt
-            txt = re.sub(r'\(\*(?:(?!\(\*|\*\)).)*\*\)', ' ', txt, flags=re.S)
-        txt = re.sub(r'"(?:[^"]|"")*"', '""', txt)   # string literals cannot declare anything
+        txt = _strip_comments_strings(p.read_text())
         for m in FORBIDDEN.finditer(txt):
             hits.append('%s: %s' % (p.relative_to(VERIF), m.group(0)))
     return hits
